@@ -277,3 +277,7 @@ mod tests {
         assert_eq!(ranges, vec![10..20, 20..30, 30..40]);
     }
 }
+
+#[cfg(kani)]
+#[path = "/verif/kani/parquet/arrow/arrow_reader/selection/ranges.rs"]
+mod verif_kani;
